@@ -191,7 +191,7 @@ func (b *builder) drawName(k kind, allowSpecial bool) name {
 	switch {
 	case choice == 0:
 		b.feats["ref:fq"]++
-		return name{"fq", b.segs(1, 3)}
+		return name{"fq", b.segs(1, 1+b.intn(6, "fqlen"))}
 	case choice == 1:
 		b.feats["ref:relative"]++
 		return name{"relative", b.segs(1, 2)}
@@ -238,7 +238,7 @@ func (b *builder) drawName(k kind, allowSpecial bool) name {
 			b.feats["ref:qualified-alias"]++
 		}
 		b.feats["ref:qualified"]++
-		return name{"plain", append([]string{first}, b.segs(1, 2)...)}
+		return name{"plain", append([]string{first}, b.segs(1, 1+b.intn(5, "quallen"))...)}
 	}
 	b.feats["ref:unqualified"]++
 	return name{"plain", b.segs(1, 1)}
